@@ -117,6 +117,7 @@ pub fn lockstep(emu: &mut Emu, prog: &Prog, opts: &LsOpts, ctl: &mut dyn FnMut(&
     emu.set_ccr(prog.ccr);
     emu.set_pc(prog.pc);
     let _ = emu.drain_msgs();
+    emu.clear_write_log();
 
     let mut touched: BTreeSet<u32> = pre.map.keys().copied().collect();
     let mut extra_patched: BTreeSet<u32> = BTreeSet::new();
